@@ -19,6 +19,8 @@ CONSTANTS NWS,        \* numbers of Wannier functions of the base systems
           MAXSOC,     \* SOC terms per SOC data set
           DEN,        \* alpha = a/DEN, a in 0..DEN
           SC,         \* all amplitudes and on-site energies are multiples of SC (SC = DEN makes the interpolation exact)
+          AEXT,       \* 0: alpha in [0, 1]; 1: also a = -1 and a = DEN + 1 (extrapolation)
+          NSPINS,     \* subset of {1, 2}: SystemSOC(up) with one spin channel, SystemSOC(up, down)
           Variant     \* "ok"; wrong variants for the sensitivity self-tests: "keepcentres", "anyU", "blockspin", "intersect"
 
 VARIABLES base, kind, cur, prev, hist,
@@ -73,15 +75,22 @@ DoRotate == /\ "Rotate" \in OPS /\ kind = "R"
 DoDoubleSpin == /\ "DoubleSpin" \in OPS /\ kind = "R" /\ ~cur.spinor
                 /\ Step([op |-> "DoubleSpin"], "R", IF Variant = "blockspin" THEN DoubleSpinBlock(cur) ELSE DoubleSpin(cur))
 DoMakeSOC == /\ "MakeSOC" \in OPS /\ kind = "R" /\ ~cur.spinor /\ ~cur.hasX
-             /\ \E dn \in {p \in Partners(cur.nw) : ~p.hasX} : Step([op |-> "MakeSOC", dn |-> dn], "SOC", MakeSOC(cur, dn))
+             /\ \/ /\ 2 \in NSPINS
+                   /\ \E dn \in {p \in Partners(cur.nw) : ~p.hasX} : Step([op |-> "MakeSOC", dn |-> dn, nspin |-> 2], "SOC", MakeSOC(cur, dn))
+                \/ /\ 1 \in NSPINS                                  \* SystemSOC(system_up): system_down is system_up
+                   /\ Step([op |-> "MakeSOC", dn |-> cur, nspin |-> 1], "SOC", MakeSOC(cur, cur))
+(* the number of spin channels of the spin-orbit system under construction (set by its MakeSOC) *)
+NspinNow == LET js == {j \in 1..Len(hist) : hist[j].op = "MakeSOC"} IN hist[CHOOSE j \in js : \A i \in js : i <= j].nspin
 DoSetSOC == /\ "SetSOC" \in OPS /\ kind = "SOC" /\ ~cur.hassoc
             /\ \E d \in SocCat(cur.up.nw), m \in ANGM, n \in ANGN, al \in ALS :
-                  Step([op |-> "SetSOC", rsS |-> d.rsS, D |-> d.D, m |-> m, n |-> n, al |-> al], "SOC",
-                       SetSOC(cur, d.rsS, d.D, PauliRot(m, n), al))
-DoToPlainR == /\ "ToPlainR" \in OPS /\ kind = "SOC" /\ cur.hassoc
+                  LET D == IF NspinNow = 1 THEN Nspin1D(d.D) ELSE d.D IN
+                  Step([op |-> "SetSOC", rsS |-> d.rsS, D |-> D, m |-> m, n |-> n, al |-> al], "SOC",
+                       SetSOC(cur, d.rsS, D, PauliRot(m, n), al))
+(* get_system_R of every spin-orbit system, with or without SOC terms (the statement does not exclude the latter) *)
+DoToPlainR == /\ "ToPlainR" \in OPS /\ kind = "SOC"
               /\ Step([op |-> "ToPlainR"], "R", ToPlainR(cur))
 DoInterpolate == /\ "Interpolate" \in OPS /\ kind = "R"
-                 /\ \E s1 \in Partners(cur.nw), a \in 0..DEN :
+                 /\ \E s1 \in Partners(cur.nw), a \in (0 - AEXT)..(DEN + AEXT) :
                        /\ InterpExact(cur, s1, a, DEN)
                        /\ Step([op |-> "Interpolate", s1 |-> s1, a |-> a, den |-> DEN], "R",
                                IF Variant = "intersect" THEN InterpolateIntersect(cur, s1, a, DEN) ELSE Interpolate(cur, s1, a, DEN))
